@@ -1,3 +1,18 @@
+Gen/Sql.vo Gen/Sql.glob Gen/Sql.v.beautified Gen/Sql.required_vo: Gen/Sql.v 
+Gen/Sql.vio: Gen/Sql.v 
+Gen/Sql.vos Gen/Sql.vok Gen/Sql.required_vos: Gen/Sql.v 
+Gen/Status.vo Gen/Status.glob Gen/Status.v.beautified Gen/Status.required_vo: Gen/Status.v 
+Gen/Status.vio: Gen/Status.v 
+Gen/Status.vos Gen/Status.vok Gen/Status.required_vos: Gen/Status.v 
+Spec/SqlRef.vo Spec/SqlRef.glob Spec/SqlRef.v.beautified Spec/SqlRef.required_vo: Spec/SqlRef.v 
+Spec/SqlRef.vio: Spec/SqlRef.v 
+Spec/SqlRef.vos Spec/SqlRef.vok Spec/SqlRef.required_vos: Spec/SqlRef.v 
+Spec/Dialect.vo Spec/Dialect.glob Spec/Dialect.v.beautified Spec/Dialect.required_vo: Spec/Dialect.v 
+Spec/Dialect.vio: Spec/Dialect.v 
+Spec/Dialect.vos Spec/Dialect.vok Spec/Dialect.required_vos: Spec/Dialect.v 
+Spec/Front15.vo Spec/Front15.glob Spec/Front15.v.beautified Spec/Front15.required_vo: Spec/Front15.v Gen/Status.vo
+Spec/Front15.vio: Spec/Front15.v Gen/Status.vio
+Spec/Front15.vos Spec/Front15.vok Spec/Front15.required_vos: Spec/Front15.v Gen/Status.vos
 Model/Base.vo Model/Base.glob Model/Base.v.beautified Model/Base.required_vo: Model/Base.v 
 Model/Base.vio: Model/Base.v 
 Model/Base.vos Model/Base.vok Model/Base.required_vos: Model/Base.v 
@@ -76,9 +91,9 @@ Props/C09.vos Props/C09.vok Props/C09.required_vos: Props/C09.v Model/Mon.vos Mo
 Props/C01.vo Props/C01.glob Props/C01.v.beautified Props/C01.required_vo: Props/C01.v Model/Mon.vo Model/MonC01.vo Proofs/StoreLocks.vo Proofs/StorePromises.vo Proofs/Discipline.vo Proofs/SysInv.vo Proofs/PC01.vo
 Props/C01.vio: Props/C01.v Model/Mon.vio Model/MonC01.vio Proofs/StoreLocks.vio Proofs/StorePromises.vio Proofs/Discipline.vio Proofs/SysInv.vio Proofs/PC01.vio
 Props/C01.vos Props/C01.vok Props/C01.required_vos: Props/C01.v Model/Mon.vos Model/MonC01.vos Proofs/StoreLocks.vos Proofs/StorePromises.vos Proofs/Discipline.vos Proofs/SysInv.vos Proofs/PC01.vos
-Props/C16.vo Props/C16.glob Props/C16.v.beautified Props/C16.required_vo: Props/C16.v Model/Mon.vo Proofs/StoreLocks.vo Proofs/StorePromises.vo Proofs/PC16.vo
-Props/C16.vio: Props/C16.v Model/Mon.vio Proofs/StoreLocks.vio Proofs/StorePromises.vio Proofs/PC16.vio
-Props/C16.vos Props/C16.vok Props/C16.required_vos: Props/C16.v Model/Mon.vos Proofs/StoreLocks.vos Proofs/StorePromises.vos Proofs/PC16.vos
+Props/C16.vo Props/C16.glob Props/C16.v.beautified Props/C16.required_vo: Props/C16.v Model/Mon.vo Proofs/StoreLocks.vo Proofs/StorePromises.vo Proofs/PC16.vo Gen/Sql.vo Spec/SqlRef.vo
+Props/C16.vio: Props/C16.v Model/Mon.vio Proofs/StoreLocks.vio Proofs/StorePromises.vio Proofs/PC16.vio Gen/Sql.vio Spec/SqlRef.vio
+Props/C16.vos Props/C16.vok Props/C16.required_vos: Props/C16.v Model/Mon.vos Proofs/StoreLocks.vos Proofs/StorePromises.vos Proofs/PC16.vos Gen/Sql.vos Spec/SqlRef.vos
 Props/C05.vo Props/C05.glob Props/C05.v.beautified Props/C05.required_vo: Props/C05.v Model/Mon.vo Model/MonC05.vo Proofs/StoreLocks.vo Proofs/StorePromises.vo Proofs/StoreCallbacks.vo Proofs/Discipline.vo Proofs/SysInv.vo Proofs/PC05.vo
 Props/C05.vio: Props/C05.v Model/Mon.vio Model/MonC05.vio Proofs/StoreLocks.vio Proofs/StorePromises.vio Proofs/StoreCallbacks.vio Proofs/Discipline.vio Proofs/SysInv.vio Proofs/PC05.vio
 Props/C05.vos Props/C05.vok Props/C05.required_vos: Props/C05.v Model/Mon.vos Model/MonC05.vos Proofs/StoreLocks.vos Proofs/StorePromises.vos Proofs/StoreCallbacks.vos Proofs/Discipline.vos Proofs/SysInv.vos Proofs/PC05.vos
@@ -88,3 +103,9 @@ Props/C04.vos Props/C04.vok Props/C04.required_vos: Props/C04.v Model/Mon.vos Mo
 Props/C07.vo Props/C07.glob Props/C07.v.beautified Props/C07.required_vo: Props/C07.v Model/Mon.vo Model/MonC07.vo Proofs/StoreLocks.vo Proofs/StorePromises.vo Proofs/StoreCallbacks.vo Proofs/Discipline.vo Proofs/SysInv.vo Proofs/PC05.vo Proofs/PC07.vo
 Props/C07.vio: Props/C07.v Model/Mon.vio Model/MonC07.vio Proofs/StoreLocks.vio Proofs/StorePromises.vio Proofs/StoreCallbacks.vio Proofs/Discipline.vio Proofs/SysInv.vio Proofs/PC05.vio Proofs/PC07.vio
 Props/C07.vos Props/C07.vok Props/C07.required_vos: Props/C07.v Model/Mon.vos Model/MonC07.vos Proofs/StoreLocks.vos Proofs/StorePromises.vos Proofs/StoreCallbacks.vos Proofs/Discipline.vos Proofs/SysInv.vos Proofs/PC05.vos Proofs/PC07.vos
+Props/C15.vo Props/C15.glob Props/C15.v.beautified Props/C15.required_vo: Props/C15.v Gen/Status.vo Spec/Front15.vo Model/Coro.vo
+Props/C15.vio: Props/C15.v Gen/Status.vio Spec/Front15.vio Model/Coro.vio
+Props/C15.vos Props/C15.vok Props/C15.required_vos: Props/C15.v Gen/Status.vos Spec/Front15.vos Model/Coro.vos
+Props/C17.vo Props/C17.glob Props/C17.v.beautified Props/C17.required_vo: Props/C17.v Gen/Sql.vo Spec/SqlRef.vo Spec/Dialect.vo
+Props/C17.vio: Props/C17.v Gen/Sql.vio Spec/SqlRef.vio Spec/Dialect.vio
+Props/C17.vos Props/C17.vok Props/C17.required_vos: Props/C17.v Gen/Sql.vos Spec/SqlRef.vos Spec/Dialect.vos
